@@ -7,8 +7,11 @@ Every enumerated program goes through `cppcheck --clang --dump` of the ASan+UBSa
      2-operator expressions over 4 leaves / 18 operators), as C and C++; ill-typed ones are dropped after a `clang -fsyntax-only` pass,
      the accepted ones re-rendered (up to 800 per file) (analysed with --clang=<wrapper adding -w>, because any clang
      warning makes the import stop with an internal error, which exempts the whole file)
-  P  one translation unit per language feature (67 C++, 35 C snippets: statement kinds, casts, initialisers,
-     templates, lambdas, GNU extensions ...), several files per cppcheck invocation
+  P  one translation unit per statement / expression / declaration kind that clang's AST distinguishes and that
+     needs no header (167 C++, 50 C units named after the node kind: every statement kind, throw/rethrow/try forms,
+     every cast, literal, operator, C++ object expression, lambda capture kind, template form, declaration kind,
+     attribute ...) plus 67 C++ / 35 C mixed-feature snippets; each unit is its own file (a crash in one must not
+     hide the others), 16 files per cppcheck invocation
 Oracle: (a) no crash, no sanitizer report; (b) if cppcheck reported no internal error for the file, its
 dump satisfies the C14 invariants of vlib/dumpcheck.py (ids, references, links, AST); (c) every variable use the
 imported model links is linked to the declaration `clang -ast-dump=json` names (vlib/nameres.judge_imported).
@@ -178,12 +181,14 @@ def work(job):
 
 
 def jobs_for(tier):
-    # P: snippets, 17 files per invocation (the ASan build needs seconds to start, clang runs once per file anyway)
-    for lang, table, ext in (("cpp", featgen.SNIPPETS_CPP, ".cpp"), ("c", featgen.SNIPPETS_C, ".c")):
-        names = sorted(table)
-        for i in range(0, len(names), 17):
-            yield {"family": "P", "lang": lang,
-                   "files": [("p_%s%s" % (n, ext), table[n], {"snippet": n}) for n in names[i:i + 17]]}
+    # P: one translation unit per statement / expression / declaration kind (featgen.KINDS_*) and the mixed-feature
+    # snippets (featgen.SNIPPETS_*); every unit is its own file, 16 files per invocation (the ASan build needs seconds
+    # to start; clang runs once per file anyway; after a crash the remaining files are analysed by a new invocation)
+    for lang, tables, ext in (("cpp", (("k", featgen.KINDS_CPP), ("p", featgen.SNIPPETS_CPP)), ".cpp"),
+                              ("c", (("k", featgen.KINDS_C), ("p", featgen.SNIPPETS_C)), ".c")):
+        units = [("%s_%s%s" % (pre, n, ext), table[n], {"snippet": n}) for pre, table in tables for n in sorted(table)]
+        for i in range(0, len(units), 16):
+            yield {"family": "P", "lang": lang, "files": units[i:i + 16]}
     # S: scope corpus
     nmax = 3
     for lang in ("cpp", "c"):
@@ -299,4 +304,5 @@ def main(tier, replay=None):
              "units; evaluation = one program whose file the import processed; distinct/nontrivial = a program (S, E) with "
              "at least one judged linked variable use, or a snippet file (P) whose dump was checked" % (
                  " plus 4-scope chains" if tier == "thorough" else "",
-                 "and all 2-operator expressions" if tier == "thorough" else "", len(featgen.SNIPPETS_CPP), len(featgen.SNIPPETS_C)))
+                 "and all 2-operator expressions" if tier == "thorough" else "", len(featgen.SNIPPETS_CPP) + len(featgen.KINDS_CPP),
+                 len(featgen.SNIPPETS_C) + len(featgen.KINDS_C)))
